@@ -91,7 +91,7 @@ impl<T: crate::EventSource> TransientSourceState<T> {
 //@ spec
         ensures r == (self.st() is None),
 //@ enditem
-//@ item src/sources/transient.rs / impl TransientSource<T> / fn remove props=C18
+//@ item src/sources/transient.rs / impl TransientSource<T> / fn remove props=C18,C16
 //@ rw R1 * <<replace_state(TransientSourceState::Keep)>> => <<replace_state(|x: T| -> (r: TransientSourceState<T>) ensures r == TransientSourceState::Keep(x) { TransientSourceState::Keep(x) })>>
 //@ rw R1 * <<replace_state(TransientSourceState::Register)>> => <<replace_state(|x: T| -> (r: TransientSourceState<T>) ensures r == TransientSourceState::Register(x) { TransientSourceState::Register(x) })>>
 //@ rw R1 * <<replace_state(TransientSourceState::Disable)>> => <<replace_state(|x: T| -> (r: TransientSourceState<T>) ensures r == TransientSourceState::Disable(x) { TransientSourceState::Disable(x) })>>
@@ -115,7 +115,7 @@ impl<T: crate::EventSource> TransientSourceState<T> {
             // parent is (a child that still waits for its first registration must not be "unregistered" later)
             forall|p: bool| #[trigger] old(self).st().inv_d(p) ==> final(self).st().inv_d(p),
 //@ enditem
-//@ item src/sources/transient.rs / impl TransientSource<T> / fn replace props=C18
+//@ item src/sources/transient.rs / impl TransientSource<T> / fn replace props=C18,C16
 //@ closure <<|old| TransientSourceState::Replace { new, old }>>
 -> (r: TransientSourceState<T>) ensures r == (TransientSourceState::Replace { new, old })
 //@ spec
